@@ -607,7 +607,7 @@ def check_statement(conn, unit, acc=None):
             declared = list(table.columns)
             it = iter(declared)
             if not all(c in it for c in expected):
-                out.append((f'wildcard:not-declaration-order:{kind}', f'wildcard columns {expected!r} of table {spec!r} are not a sub-sequence of its declared columns {declared!r}'))
+                out.append(('wildcard:not-declaration-order', f'wildcard columns {expected!r} of table {spec!r} are not a sub-sequence of its declared columns {declared!r}'))
         if names != expected:
             fp = 'shape:description-length' if len(names) != len(expected) else f'wildcard:{kind}'
             out.append((fp, f'`*` gives columns {names!r}, expected the table\'s default columns {expected!r}'))
